@@ -289,15 +289,18 @@ def proj(pid, op, core):
         if pid == "C09":
             return (v["r"], v["ev"]) if not pn else None
         if pid == "C10":
+            # txid / block hash / preimage of the returned object and of every object handed to the visitor
+            inev = tuple(re.findall(r"(?:txid|hash|pre)=[^,)]*", v["ev"] or ""))
             if not ok:
-                return None
-            return (field(v["obj"], "txid"), field(v["obj"], "hash"), field(v["obj"], "pre"))
+                return inev if inev else None
+            return (field(v["obj"], "txid"), field(v["obj"], "hash"), field(v["obj"], "pre"), inev)
+        if pid == "C16" and ok is not None:
+            inev = tuple(re.findall(r",w=[^,)]*", v["ev"] or ""))
+            return (field(v["obj"], "w") if ok else None, inev) if (ok or inev) else None
         if pid == "C14":
             return v["r"] if (pn and not ok) else ("ok" if pn else None)
         if pid == "C15":
             return (v["r"], v["obj"], v["rem"]) if pn else None
-        if pid == "C16":
-            return field(v["obj"], "w") if ok else None
         if pid == "C17":
             if not ok or op.split()[1] != "txouts":
                 return None
